@@ -1,5 +1,5 @@
 (* C17_Proofs: lemmas about C17_Model (digit generation, FixedBuffer bounds, Logger line,
-   level gate, basename, the formatSI/formatIEC ladders). *)
+   level gate, basename).  The formatSI/formatIEC ladders are in C17_Units.v. *)
 From Coq Require Import List ZArith Lia Bool Arith NArith.
 From Coq.Strings Require Import Byte.
 From Muduo Require Import Base_Bytes Gen_Consts Gen_C17 C17_Model.
@@ -97,6 +97,15 @@ Section Numeral.
           - assert (B * (v2 + 1) <= B * v1) by (apply Z.mul_le_mono_nonneg_l; lia). lia. }
         destruct Hd as [-> Hr]. f_equal.
         apply IH; auto; eapply trimmed_tail; eassumption.
+  Qed.
+
+  (* k digits denote a value below B^k *)
+  Lemma val_lsd_lt l : Forall is_digit l -> val_lsd l < B ^ Z.of_nat (length l).
+  Proof.
+    induction 1 as [|c r [d [Hd ->]] Hr IH]; cbn [val_lsd length]; [cbn; lia|].
+    rewrite Hval by lia. rewrite Nat2Z.inj_succ, Z.pow_succ_r by lia.
+    assert (B * (val_lsd r + 1) <= B * B ^ Z.of_nat (length r)) by (apply Z.mul_le_mono_nonneg_l; lia).
+    lia.
   Qed.
 
   (* ---- the digit loop of convert / convertHex ---------------------------- *)
@@ -688,96 +697,4 @@ Section Line.
   Qed.
 End Line.
 
-(* ====================================================================== *)
-(* 4. formatSI / formatIEC: what is established about the ladders           *)
-(* ====================================================================== *)
-
-Lemma formatSI_small s : 0 <= s < 1000 -> formatSI s = convert s /\ (length (formatSI s) <= 3)%nat.
-Proof.
-  intros H. assert (E : formatSI s = convert s).
-  { unfold formatSI, si_ladder. cbn [select]. destruct (Z.ltb_spec (s * 1) 1000); [reflexivity|lia]. }
-  split; [exact E|]. rewrite E.
-  pose proof (convert_length s 3 ltac:(lia) ltac:(change (10 ^ Z.of_nat 3) with 1000; lia)) as L.
-  destruct (Z.ltb_spec s 0); lia.
-Qed.
-
-Lemma to_double_small s : 0 <= s < 2 ^ 53 -> to_double s = s.
-Proof. intros H. unfold to_double. destruct (Z.ltb_spec s (2 ^ 53)); [reflexivity|lia]. Qed.
-
-Lemma formatIEC_small s : 0 <= s < 1024 -> formatIEC s = convert s /\ (length (formatIEC s) <= 4)%nat.
-Proof.
-  intros H. assert (E : formatIEC s = convert s).
-  { unfold formatIEC, iec_ladder. cbn [select]. rewrite to_double_small by lia.
-    destruct (Z.ltb_spec (s * 1) 1024); [reflexivity|lia]. }
-  split; [exact E|]. rewrite E.
-  pose proof (convert_length s 4 ltac:(lia) ltac:(change (10 ^ Z.of_nat 4) with 10000; lia)) as L.
-  destruct (Z.ltb_spec s 0); lia.
-Qed.
-
-(* first integer at or above the bound num/den of a rung test *)
-Definition rung_bound (t : rung_test) : option Z :=
-  match t with
-  | OnInt num den | OnDouble num den => Some (- ((- num) / den))
-  | Else => None
-  end.
-Definition rung_bounds (l : list (rung_test * rung_fmt)) : list Z :=
-  flat_map (fun r => match rung_bound (fst r) with Some c => [c] | None => [] end) l.
-
-(* a window of 2201 integers around a bound: wider than twice the spacing of doubles below 2^63
-   (1024), so it contains the last n of the rung below and the first n of the rung above also when
-   the test is made on double(n) *)
-Definition window : list Z := map (fun i => Z.of_nat i - 1100) (seq 0 2201).
-Definition in_dom (n : Z) : bool := (0 <=? n) && (n <? 2 ^ 63).
-Definition window_ok (f : Z -> list byte) (w : nat) (c : Z) : bool :=
-  forallb (fun d => negb (in_dom (c + d)) || (length (f (c + d)%Z) <=? w)%nat) window.
-
-Definition fmt_same (a b : rung_fmt) : bool :=
-  match a, b with
-  | RInt, RInt => true
-  | RFix p d _, RFix p' d' _ => (p =? p') && (d =? d')
-  | _, _ => false
-  end.
-(* the change of rung happens inside the window: at its lower edge the rung below the bound is
-   selected, at its upper edge the rung above *)
-Fixpoint switches (l : list (rung_test * rung_fmt)) (all : list (rung_test * rung_fmt)) : bool :=
-  match l with
-  | (t, f) :: (((_, f') :: _) as r) =>
-      match rung_bound t with
-      | Some c => (negb (in_dom (c - 1100)) || fmt_same (select (c - 1100) all) f) &&
-                  (negb (in_dom (c + 1100)) || fmt_same (select (c + 1100) all) f')
-      | None => true
-      end && switches r all
-  | _ => true
-  end.
-
-Lemma si_rung_windows :
-  forallb (window_ok formatSI 5) (rung_bounds si_ladder) = true /\ switches si_ladder si_ladder = true /\
-  (length (formatSI (2 ^ 63 - 1)) <=? 5)%nat = true /\ (length (formatSI 0) <=? 5)%nat = true.
-Proof. vm_compute. repeat split. Qed.
-
-Lemma iec_rung_windows :
-  forallb (window_ok formatIEC 6) (rung_bounds iec_ladder) = true /\ switches iec_ladder iec_ladder = true /\
-  (length (formatIEC (2 ^ 63 - 1)) <=? 6)%nat = true /\ (length (formatIEC 0) <=? 6)%nat = true.
-Proof. vm_compute. repeat split. Qed.
-
-(* F-9 (fixed in the source: the 10.0P..99.9P rung is chosen on the double): the eight integers
-   that convert to 9.995e16 are printed by the next rung *)
-Definition f9_range : list Z := map (fun i => 99949999999999992 + Z.of_nat i) (seq 0 8).
-Lemma f9_fixed :
-  forallb (fun n => match formatSI n with [x31; x30; x30; x50] => true | _ => false end) f9_range = true /\
-  formatSI 99949999999999991 = [x39; x39; x2e; x39; x50].
-Proof. vm_compute. split; reflexivity. Qed.
-
-Lemma window_ok_use f w c n :
-  window_ok f w c = true -> 0 <= n < 2 ^ 63 -> c - 1100 <= n <= c + 1100 -> (length (f n) <= w)%nat.
-Proof.
-  intros H Hn Hc. unfold window_ok in H. rewrite forallb_forall in H.
-  assert (Hin : In (n - c) window).
-  { unfold window. apply in_map_iff. exists (Z.to_nat (n - c + 1100)). split; [lia|].
-    apply in_seq. lia. }
-  specialize (H _ Hin). replace (c + (n - c)) with n in H by lia.
-  apply orb_prop in H. destruct H as [H|H].
-  - unfold in_dom in H. apply negb_true_iff in H. apply andb_false_iff in H.
-    destruct H as [H|H]; [apply Z.leb_gt in H|apply Z.ltb_ge in H]; lia.
-  - apply Nat.leb_le. exact H.
-Qed.
+(* formatSI / formatIEC: see C17_Units.v *)
